@@ -728,7 +728,14 @@ pub fn generate_code(context: &Context) -> Result<u32, &'static str>
 
         info!("[ref: 16] Found {} file(s)", finder.code_files.len());
 
-        let calculated_next_reference_id = match context.cached_next_reference_id
+        /*
+         * Reference IDs start at START_REFERENCE_ID, so a smaller recorded next ID was not
+         * written by Breadlog: it is ignored, like a lock file that cannot be parsed, and the
+         * next ID is determined from the code.
+         */
+        let calculated_next_reference_id = match context
+            .cached_next_reference_id
+            .filter(|id| *id >= START_REFERENCE_ID)
         {
             Some(id) =>
             {
